@@ -27,6 +27,9 @@ func c17(c *Ctx) {
 	c17env(c)
 	c17keys(c)
 	c17owned(c)
+	c17lossless(c)
+	c17perCall(c)
+	c17mapStored(c)
 	if n := c.freshPerIteration("C17.R5", "core/mapping"); n < 2 {
 		c.R.Undecided("C17.R5", "core/mapping#fresh", "per-iteration stores of reflect.New targets are recognised", fmt.Sprintf("%d found", n))
 	}
@@ -402,4 +405,87 @@ func c17owned(c *Ctx) {
 	}
 	sort.Strings(bad)
 	c.R.Check(len(bad) == 0 && n > 100, rule, "conversion/decoding functions#ownership", "no function of the loading pipeline returns bytes that alias a buffer it has handed back to a pool (each load decodes its own copy of the converted document)", "-", strings.Join(bad, "; "), bad, n)
+}
+
+// c17lossless (R7): numbers are rendered to text without loss. Every strconv.FormatFloat in the loading
+// pipeline formats with the shortest round-tripping precision (-1) and with the bit size of the value it
+// was given: 64 unless the operand was widened from a float32. (seed r3-C17-2: float64 formatted with 32)
+func c17lossless(c *Ctx) {
+	rule := "C17.R7"
+	sites := 0
+	var bad []string
+	for _, pkg := range []string{encPkg, confPkg, "core/mapping", "core/jsonx", "core/lang"} {
+		for _, f := range c.P.AllFuncs(pkg) {
+			for _, b := range f.Blocks {
+				for _, ins := range b.Instrs {
+					call, ok := ins.(*ssa.Call)
+					if !ok || calleeName(call.Common()) != "strconv.FormatFloat" || len(call.Call.Args) != 4 {
+						continue
+					}
+					sites++
+					from32 := false
+					if cv, ok := call.Call.Args[0].(*ssa.Convert); ok {
+						if bt, ok := cv.X.Type().Underlying().(*types.Basic); ok && bt.Kind() == types.Float32 {
+							from32 = true
+						}
+					}
+					prec, pok := call.Call.Args[2].(*ssa.Const)
+					bits, bok := call.Call.Args[3].(*ssa.Const)
+					if !pok || !bok || prec.Value == nil || bits.Value == nil {
+						bad = append(bad, c.P.Pos(call.Pos())+": precision/bit size are not constants")
+						continue
+					}
+					if prec.Int64() != -1 {
+						bad = append(bad, fmt.Sprintf("%s: precision %d instead of -1 (shortest text that parses back to the same number)", c.P.Pos(call.Pos()), prec.Int64()))
+					}
+					want := int64(64)
+					if from32 {
+						want = 32
+					}
+					if bits.Int64() != want {
+						bad = append(bad, fmt.Sprintf("%s: a %d-bit value is formatted with bit size %d: digits are lost (or invented), the number no longer equals the one in the document", c.P.Pos(call.Pos()), want, bits.Int64()))
+					}
+				}
+			}
+		}
+	}
+	c.R.Check(len(bad) == 0, rule, "number formatting in the loading pipeline", "every strconv.FormatFloat uses precision -1 and the bit size of its operand (64, or 32 for a widened float32): converting a document's number to text loses nothing", "-", fmt.Sprint(bad), nil, sites+1)
+	c.R.Extra["C17.R7_formatfloat_sites"] = sites
+}
+
+// c17perCall (R8): the options of one Load call are per-call state (seed r3-C17-1: a package-level default
+// struct customised in place made UseEnv() of one call stick for every later call).
+func c17perCall(c *Ctx) {
+	rule := "C17.R8"
+	bad, sites := c.optionTargetsShared(confPkg, "core/mapping")
+	c.R.Check(len(bad) == 0, rule, "option application in core/conf and core/mapping", "every option function customises a struct owned by the call (never a package-level variable): env expansion requested by one Load must not leak into later loads", "-", fmt.Sprint(bad), nil, sites)
+	if sites < 2 {
+		c.R.Undecided(rule, "option application sites", "the option idiom is recognised", fmt.Sprintf("%d sites", sites))
+	}
+}
+
+// c17mapStored (R9): a map value that was accepted is stored — fillMap returns nil only after value.Set(result of
+// generateMap). encoding/json decodes {} into an empty non-nil map; skipping the store for "nothing to fill" leaves nil.
+func c17mapStored(c *Ctx) {
+	rule := "C17.R9"
+	f := c.fn(rule, "core/mapping", "(*Unmarshaler).fillMap")
+	if f == nil {
+		return
+	}
+	ps := c.paths(rule, f, px.Config{})
+	c.forall(rule, "core/mapping.(*Unmarshaler).fillMap", "nil is returned only after the target was set to the map built by generateMap (an empty document map yields an empty map, as in encoding/json, not an untouched nil)", f, ps, func(p *px.Path) (bool, string) {
+		if p.Exit != px.ExitReturn || len(p.Results) != 1 || p.Abs(p.Results[0]).K != px.Nil {
+			return true, ""
+		}
+		gm := p.First(calleeIs("core/mapping.(*Unmarshaler).generateMap"))
+		if gm == nil {
+			return false, "success without building the map (generateMap not called): the target keeps its previous value (nil)"
+		}
+		for _, e := range p.All(calleeIs("reflect.(Value).Set")) {
+			if e.Seq > gm.Seq && len(e.Call.Args) == 2 && e.Call.Args[1].Strip(false) == findExtract(p, gm.Res, 0) {
+				return true, ""
+			}
+		}
+		return false, "success without value.Set(generated map)"
+	})
 }
